@@ -299,6 +299,12 @@ class Taint:
                             self._site(fi, node, k, f"{nm}()", wrapped,
                                        "wrapped in an order-free consumer" if wrapped else
                                        f"{nm}() materialises the iteration order of a set")
+                    if isinstance(f, ast.Name) and nm in ("sorted", "min", "max") and node.args \
+                            and any(kw.arg == "key" for kw in node.keywords):
+                        k = self.kind_of(fi, node.args[0])
+                        if k:
+                            self._site(fi, node, k, f"{nm}(key=...)", False,
+                                       "elements that tie under the key keep the iteration order of the set")
                     if isinstance(f, ast.Attribute) and nm == "join" and node.args and self.kind_of(fi, node.args[0]):
                         self._site(fi, node, self.kind_of(fi, node.args[0]), "str.join", False,
                                    "a string is built in the iteration order of a set")
